@@ -5,11 +5,16 @@ import itertools
 from harness import coqemit as E
 from harness import core, tokutil
 
-PRE = """From EV Require Import Base.Str Base.PyVal Base.Corr Model.Tokenize Model.Resolve Gen.Unicode Gen.Consts.
+PRE = """From EV Require Import Base.Str Base.PyVal Base.Corr Regex.Syntax Model.Tokenize Model.Resolve Model.StripPunct
+  Gen.Unicode Gen.Consts Gen.StripPunct.
 Open Scope N_scope.
-Definition mkc o cl g gu eds pl df an ans pin nm mv : cit :=
+(* c_ante_stripped is COMPUTED BY THE MODEL of strip_punct (Model/StripPunct.v on the regenerated step list) from the
+   antecedent; the value the implementation computed (argument `ans`) is not used *)
+Definition mkc o cl g gu eds pl df (an : option str) (ans : str) pin nm mv : cit :=
   {| oid := o; c_cls := cl; c_groups := g; c_guess := gu; c_eds := eds; c_plaintiff := pl;
-     c_defendant := df; c_antecedent := an; c_ante_stripped := ans; c_pin := pin; c_names := nm;
+     c_defendant := df; c_antecedent := an;
+     c_ante_stripped := match an with Some a => strip_punct U strip_punct_steps a | None => [] end;
+     c_pin := pin; c_names := nm;
      c_meta_values := mv |}.
 Definition run_resolve (cs : list cit) : result (list (list nat)) :=
   match resolve DT MAX_OPINION_PAGE_COUNT cs with
